@@ -143,6 +143,14 @@ func runHostileClient(args []string, dst string, stream []byte) string {
 	}
 }
 
+// holdReader blocks until released, then reports the end of the stream
+type holdReader struct{ c chan struct{} }
+
+func (r *holdReader) Read(p []byte) (int, error) {
+	<-r.c
+	return 0, io.EOF
+}
+
 func suiteHostile(h *H) {
 	os.Stderr = devNull
 	base, err := os.MkdirTemp("", "verif-hostile")
@@ -154,7 +162,7 @@ func suiteHostile(h *H) {
 	{
 		es := []hostileFile{{e: refEntry{name: []byte("."), mode: sIFDIR | 0o755, size: 4096, mtime: 1500000000}},
 			{e: refEntry{name: []byte("f"), mode: sIFREG | 0o644, size: 5, mtime: 1500000000}, data: []byte("hello")}}
-		for _, args := range [][]string{{"-r"}, {"-rt"}, {"-a"}} {
+		for _, args := range [][]string{{"-r"}, {"-rt"}, {"-a"}, {"-r", "--delete"}, {"-a", "--delete", "--exclude=x"}} {
 			h.begin(fmt.Sprintf("!hostile-listonly seed=%d opts=%s", h.seed, strings.Join(args, ",")))
 			out := runHostileClient(args, "", hostileStream(es, refOpts{links: args[0] == "-a"}, h))
 			v := ""
@@ -168,6 +176,61 @@ func suiteHostile(h *H) {
 		}
 	}
 	defer os.RemoveAll(base)
+	// ---- the generator fails (a destination *file* is in the way of a listed path below it) while the receiving side is
+	// in the middle of another file and the sender sends no more: once the session is over and the connection closed, no
+	// temporary file may stay behind (C04)
+	{
+		dst := filepath.Join(base, "genfail-dst")
+		os.MkdirAll(dst, 0o755)
+		os.WriteFile(filepath.Join(dst, "x"), []byte("a file where the list has a directory"), 0o644)
+		big := bytes.Repeat([]byte("0123456789abcdef"), 8192) // 128 KiB
+		es := []hostileFile{{e: refEntry{name: []byte("."), mode: sIFDIR | 0o755, size: 4096, mtime: 1500000000}},
+			{e: refEntry{name: []byte("a"), mode: sIFREG | 0o644, size: int64(len(big)), mtime: 1500000000}, data: big},
+			{e: refEntry{name: []byte("b"), mode: sIFREG | 0o644, size: 0, mtime: 1500000000}},
+			{e: refEntry{name: []byte("x/y"), mode: sIFREG | 0o644, size: 0, mtime: 1500000000}}}
+		stream := hostileStream(es, refOpts{}, h)
+		stream = stream[:len(stream)-60000] // inside the data of "a"
+		osenv := &rsyncos.Env{Stdout: io.Discard, Stderr: io.Discard, DontRestrict: true}
+		pc := rsyncopts.NewContext(rsyncopts.NewOptionsWithGokrazyDefaults(osenv))
+		out, v := "optserr", ""
+		if err := pc.ParseArguments(osenv, []string{"-rt", "host::mod/", dst}); err == nil {
+			hold := make(chan struct{})
+			done := make(chan string, 1)
+			go func() {
+				defer func() {
+					if r := recover(); r != nil {
+						done <- fmt.Sprintf("panic:%v", r)
+					}
+				}()
+				_, err := maincmd.ClientRun(osenv, pc.Options, &scriptedConn{r: io.MultiReader(bytes.NewReader(stream), &holdReader{hold})}, []string{dst}, false)
+				if err != nil {
+					done <- "err"
+				} else {
+					done <- "ok"
+				}
+			}()
+			select {
+			case out = <-done:
+			case <-time.After(20 * time.Second):
+				out = "timeout"
+			}
+			time.Sleep(100 * time.Millisecond)
+			close(hold) // the connection is closed: whatever still reads from it sees the end
+			time.Sleep(400 * time.Millisecond)
+			if ents, err := os.ReadDir(dst); err == nil {
+				for _, e := range ents {
+					if strings.HasPrefix(e.Name(), ".a") {
+						v = fmt.Sprintf("FAIL[C04] a temporary file (%s…) stays in the destination after a session in which the generator failed while a file was being received", e.Name()[:3])
+					}
+				}
+			}
+			if strings.HasPrefix(out, "panic") {
+				v = "FAIL[C08] " + out
+			}
+		}
+		h.emit(fmt.Sprintf("!hostile-genfail seed=%d", h.seed), out, v, true)
+		h.stat("hostile.genfail")
+	}
 	const secret = "CANARY-SECRET-7f3a"
 	isRoot := os.Geteuid() == 0
 	caseNo := 0
